@@ -1,7 +1,7 @@
 ---- MODULE MCFraming ----
 EXTENDS Framing
 \* kinds: concrete OpenFlow messages of these lengths are built by the adapter for each side
-Lens == [h8 |-> 8, e9 |-> 9, c12 |-> 12, m16 |-> 16, f72 |-> 72, f88 |-> 88, p64 |-> 64,
+Lens == [huge |-> 40000, max |-> 65535, h8 |-> 8, e9 |-> 9, c12 |-> 12, m16 |-> 16, f72 |-> 72, f88 |-> 88, p64 |-> 64,
          big |-> 1518, b2040 |-> 2040, b2047 |-> 2047, b2048 |-> 2048, b2049 |-> 2049, b2056 |-> 2056]
 SeqsUpTo(S, n) == UNION {[1..k -> S] : k \in 1..n}
 Small == SeqsUpTo({"h8", "e9", "c12"}, 3)
@@ -15,5 +15,10 @@ RECURSIVE Ends(_, _)
 Ends(s, i) == IF i = 0 THEN {0} ELSE Ends(s, i - 1) \cup {SumTo(s, i)}
 Near(S) == UNION {{x - 1, x, x + 1, x + 7, x + 8, x + 9} : x \in S}
 BigCuts == UNION {Near(Ends(s, Len(s))) : s \in Big} \cup Near({2048, 4096})
+\* messages of 32 KiB and more (the length field is an unsigned 16-bit number)
+Huge == {<<"huge", "h8">>, <<"h8", "huge", "e9">>, <<"max", "h8">>}
+HugeCuts == UNION {Near(Ends(s, Len(s))) : s \in Huge} \cup Near({32767, 32768, 40000})
+\* controller: 2048-byte reads; allow only a couple of early cut points, the rest are full-size reads
+HugeCutsC == {7, 8, 9, 17}
 NoCuts == {}
 ====
